@@ -255,8 +255,14 @@ package vuego
 //@   induct chainEndMono(nodes, k + 1, last), chainEndMono(nodes, k + 1, k)
 //@   ensures C03.chainend.mono: chainEnd(nodes, k, last) >= last && chainEnd(nodes, k, last) < (len(nodes) > k ? len(nodes) : k)
 
+// the program cache is sound: every cached program is the compilation of its key with the evaluator's fixed options
+//@ invariant (e *ExprEvaluator) C10+C13.cache.sound: forall k string :: (k in e.programs) ==> e.programs[k] == compiled2(k, optAllowUndef(), optDisable("count"))
+//@ func NewExprEvaluator() (e)
+//@   modifies nothing
+//@   ensures C10+C13.cache.new: fresh(e) && forall k string :: !(k in e.programs)
 //@ func (e *ExprEvaluator) getProgram(expression) (prog, err)
 //@   modifies contents(e.programs)
+//@   ensures C10+C13.cache.hit.eq.miss: err == nil ==> prog == compiled2(expression, optAllowUndef(), optDisable("count"))
 //@ func (e *ExprEvaluator) Eval(expression, env) (r, err)
 //@   modifies contents(e.programs)
 
